@@ -157,7 +157,7 @@ def run_history(case, ctx: Ctx) -> None:
                     if mine[k].kind == "TABLE" and cm != mine[k].comment:
                         if cm is not None and cm in ghost_comments.get(k, ()) and mine[k].comment is None:
                             mode = "comment-of-earlier-incarnation"  # the side table was not cleaned when the name was dropped/replaced/renamed
-                        elif cm is None and mine[k].how.startswith("rename"):
+                        elif cm is None and "+rename" in mine[k].how.replace("+rename-col", ""):
                             mode = "comment-lost-by-rename"
                         elif cm is None:
                             mode = f"comment-lost|how={mine[k].how}"
@@ -198,7 +198,7 @@ def run_history(case, ctx: Ctx) -> None:
                         elif dt_ == "NUMBER" and (g[5], g[6]) != (prec, scale):
                             ctx.fail(f"C09|info.columns|wrong-precision-scale|declared={ct}|how={t.how}", f"{k}.{cn}: {(g[5], g[6])} want {(prec, scale)}")
                         elif dt_ == "TEXT" and g[4] != ln and t.kind == "TABLE":
-                            records_lengths = not t.how.startswith(("clone", "ctas", "rename"))  # explicit DDL re-declares them
+                            records_lengths = not any(x in t.how for x in ("clone", "ctas", "rename"))  # explicit DDL re-declares them
                             if g[4] is not None and (cn, g[4]) in ghost_lengths.get(k, ()) and not records_lengths:
                                 mode = "of-earlier-incarnation"
                             else:
@@ -236,7 +236,7 @@ def run_history(case, ctx: Ctx) -> None:
                         if w[1] is not None and g[1] != w[1]:
                             if TYPES[ct][0] == "TEXT" and g[1].startswith("VARCHAR("):
                                 gl = int(g[1][8:-1])
-                                if (cn, gl) in ghost_lengths.get(k, ()) and t.how.startswith(("clone", "ctas", "rename")):
+                                if (cn, gl) in ghost_lengths.get(k, ()) and any(x in t.how for x in ("clone", "ctas", "rename")):
                                     what = "varchar-length-of-earlier-incarnation"
                                 else:
                                     what = f"varchar-length-{'lost' if gl == 16777216 else 'wrong'}|how={t.how}"
@@ -366,6 +366,12 @@ def run_history(case, ctx: Ctx) -> None:
                             return
                         ctx.cls("op:create-if-not-exists-on-existing")
                         have.how = "if-not-exists-on-existing"  # nothing may change; provenance label for the signature
+                        # (listed finding) the ignored definition's comment/lengths get recorded; later incarnations may inherit them
+                        if comment is not None:
+                            ghost_comments.setdefault(k, set()).add(comment)
+                        for i_, (t_, _nn) in enumerate(cols):
+                            if TYPES[t_][0] == "TEXT":
+                                ghost_lengths.setdefault(k, set()).add((COLNAMES[i_], TYPES[t_][3]))
                         if step % every == 0:
                             observe("after IF NOT EXISTS on existing")
                         continue
@@ -425,7 +431,7 @@ def run_history(case, ctx: Ctx) -> None:
                         if not free:
                             continue
                         sql = f"ALTER TABLE {fq} RENAME COLUMN {have.cols[0][0]} TO {free[-1]}"
-                        new = T("TABLE", [[free[-1], have.cols[0][1], have.cols[0][2]]] + have.cols[1:], have.comment, "rename-col")
+                        new = T("TABLE", [[free[-1], have.cols[0][1], have.cols[0][2]]] + have.cols[1:], have.comment, have.how + ("" if "+rename-col" in have.how else "+rename-col"))
                     elif kind == "rename":
                         k2 = (k[0], k[1], NAMES[op[2]])
                         if k2 in cat or k2 == k:
@@ -437,7 +443,7 @@ def run_history(case, ctx: Ctx) -> None:
                             return
                         del cat[k]
                         bury(k, have)
-                        cat[k2] = T("TABLE", have.cols, have.comment, "rename" + ("-onto-dropped-name" if k2 in dropped_names else ""))
+                        cat[k2] = T("TABLE", have.cols, have.comment, have.how + ("" if "+rename" in have.how else "+rename"))
                         dropped_names.add(k)
                         reused = reused or k2 in dropped_names
                         dropped_names.discard(k2)
@@ -448,7 +454,7 @@ def run_history(case, ctx: Ctx) -> None:
                     else:
                         text, via = op[2], op[3]
                         sql = f"ALTER TABLE {fq} SET COMMENT = '{text}'" if via == "alter" else f"COMMENT ON TABLE {fq} IS '{text}'"
-                        new = T("TABLE", have.cols, text, have.how + "+set-comment" if "+set-comment" not in have.how else have.how)
+                        new = T("TABLE", have.cols, text, (have.how + "+set-comment") if "+set-comment" not in have.how else have.how)
                 else:
                     raise InvalidCase()
                 o = run(cur, sql)
